@@ -623,6 +623,9 @@ type FCase struct {
 	Both     bool `json:"both"`  // the listener name is registered on both after-event brokers (else only on 'stored', a second name on 'deleted')
 	Work     int  `json:"work"`  // the listener spins this many scheduler yields per call
 	Extra    int  `json:"extra"` // further stored events per emitter after the pair
+	// Churn: other listener names, registered before the observed one, are removed and registered
+	// again while the events are emitted (extensions coming and going).
+	Churn bool `json:"churn,omitempty"`
 }
 
 var propFirst = hx.Prop[FCase]{
@@ -634,7 +637,7 @@ var propFirst = hx.Prop[FCase]{
 	Quick: 40, Thorough: 400,
 	Gen: func(t *rapid.T) FCase {
 		return FCase{Emitters: rapid.IntRange(2, 8).Draw(t, "emitters"), Rounds: rapid.IntRange(20, 60).Draw(t, "rounds"), Both: rapid.Bool().Draw(t, "both"),
-			Work: rapid.SampledFrom([]int{0, 1, 5}).Draw(t, "work"), Extra: rapid.IntRange(0, 3).Draw(t, "extra")}
+			Work: rapid.SampledFrom([]int{0, 1, 5}).Draw(t, "work"), Extra: rapid.IntRange(0, 3).Draw(t, "extra"), Churn: rapid.IntRange(0, 2).Draw(t, "churn") == 0}
 	},
 	Run: runFirst,
 }
@@ -666,6 +669,13 @@ func runFirst(c FCase) *hx.Outcome {
 		if !c.Both {
 			delName = "probe-deleted"
 		}
+		nop := func(event.MessageMetadata) {}
+		if c.Churn {
+			for k := 0; k < 3; k++ {
+				host.Events.AfterMessageStored.AddListener(fmt.Sprintf("churn-%d", k), nop)
+				host.Events.AfterMessageDeleted.AddListener(fmt.Sprintf("churn-%d", k), nop)
+			}
+		}
 		host.Events.AfterMessageStored.AddListener("probe", func(m event.MessageMetadata) { enter("probe", "stored:"+m.ID) })
 		host.Events.AfterMessageDeleted.AddListener(delName, func(m event.MessageMetadata) { enter(delName, "deleted:"+m.ID) })
 		var ready, wg sync.WaitGroup
@@ -696,8 +706,30 @@ func runFirst(c FCase) *hx.Outcome {
 			}(seq)
 		}
 		ready.Wait()
+		churnStop := make(chan struct{})
+		churnDone := make(chan struct{})
+		go func() {
+			defer close(churnDone)
+			if !c.Churn {
+				return
+			}
+			for k := 0; ; k++ {
+				select {
+				case <-churnStop:
+					return
+				default:
+				}
+				name := fmt.Sprintf("churn-%d", k%3)
+				host.Events.AfterMessageStored.RemoveListener(name)
+				host.Events.AfterMessageDeleted.RemoveListener(name)
+				host.Events.AfterMessageStored.AddListener(name, nop)
+				host.Events.AfterMessageDeleted.AddListener(name, nop)
+			}
+		}()
 		goFlag.Store(true)
 		wg.Wait()
+		close(churnStop)
+		<-churnDone
 		total := 0
 		for _, s := range want {
 			total += len(s)
